@@ -48,15 +48,15 @@ type vhLog struct {
 }
 
 type vhCand struct {
-	log              *vhLog
-	fork             int
-	size, ts         uint64
-	root             []byte
-	idField          []byte
-	sigOK            bool
-	garbage          bool
-	raw              []byte
-	sigTok, rawTok   string
+	log            *vhLog
+	fork           int
+	size, ts       uint64
+	root           []byte
+	idField        []byte
+	sigOK          bool
+	garbage        bool
+	raw            []byte
+	sigTok, rawTok string
 }
 
 type vhEnv struct {
@@ -241,14 +241,44 @@ func (e *vhEnv) canon(key string, code int, body []byte) string {
 	}
 }
 
+// checkGet: every 200 body of GET …/sth is a cosigned STH whose witness signature verifies and whose head is the one currently
+// held for that log (stated independently of how the server produces it: from the witness, a cache, …).
+func (e *vhEnv) checkGet(key, id string, code int, body []byte) {
+	h := e.held[id]
+	if code != http.StatusOK {
+		if h != nil {
+			e.out.Fail(key, fmt.Sprintf("GET sth for a log with a held head answered %d", code))
+		}
+		return
+	}
+	var cs api.CosignedSTH
+	if err := json.Unmarshal(body, &cs); err != nil {
+		e.out.Fail(key, "GET sth: 200 with a body that is not an STH: "+err.Error())
+		return
+	}
+	if len(cs.WitnessSigs) == 0 {
+		e.out.Fail(key, fmt.Sprintf("cosig_verifies: GET sth served an STH (size=%d) without a witness signature", cs.TreeSize))
+	} else if err := e.wv.VerifySignature(cs); err != nil {
+		e.out.Fail(key, "cosig_verifies: GET sth served an STH whose witness signature does not verify: "+err.Error())
+	}
+	if h == nil {
+		e.out.Fail(key, "GET sth served an STH for a log without a held head")
+	} else if cs.TreeSize != h.size || cs.Timestamp != h.ts || !bytes.Equal(cs.SHA256RootHash[:], h.root) {
+		e.out.Fail(key, fmt.Sprintf("GET sth served size=%d ts=%d, the held head is size=%d ts=%d", cs.TreeSize, cs.Timestamp, h.size, h.ts))
+	}
+}
+
 func (e *vhEnv) update(id string, l *vhLog, c *vhCand, pf [][]byte, class string) {
 	e.n++
 	key := fmt.Sprintf("%s op%d http-update %s", e.name, e.n, class)
 	body, _ := json.Marshal(api.UpdateRequest{STH: c.raw, Proof: pf})
 	_, before := e.do("GET", fmt.Sprintf(api.HTTPGetSTH, url.PathEscape(id)), nil)
 	code, rsp := e.do("PUT", fmt.Sprintf(api.HTTPUpdate, url.PathEscape(id)), body)
-	_, after := e.do("GET", fmt.Sprintf(api.HTTPGetSTH, url.PathEscape(id)), nil)
+	afterCode, after := e.do("GET", fmt.Sprintf(api.HTTPGetSTH, url.PathEscape(id)), nil)
 	ans := e.canon(key, code, rsp)
+	defer func() { // once the bookkeeping below has followed the PUT: what GET serves now
+		e.checkGet(fmt.Sprintf("%s op%d http-get-after-%s", e.name, e.n, class), id, afterCode, after)
+	}()
 	var ps strings.Builder
 	fmt.Fprintf(&ps, "%d", len(pf))
 	for _, h := range pf {
@@ -307,6 +337,7 @@ func TestVerifC19HTTP(t *testing.T) {
 				e.n++
 				id := []string{l.id, "unknown", "a/b+c="}[e.r.Intn(3)]
 				code, body := e.do("GET", fmt.Sprintf(api.HTTPGetSTH, url.PathEscape(id)), nil)
+				e.checkGet(fmt.Sprintf("%s op%d http-get %s", e.name, e.n, id), id, code, body)
 				ans := e.canon(fmt.Sprintf("%s op%d http-get", e.name, e.n), code, body)
 				if code == http.StatusNotFound {
 					ans = "err"
@@ -374,6 +405,9 @@ func TestVerifC19HTTP(t *testing.T) {
 							class = "forward-other-fork-proof"
 						}
 					}
+				}
+				if prev != nil && e.r.Intn(6) == 0 {
+					c, pf, class = prev, nil, "replay-identical" // the held STH again, byte for byte
 				}
 				e.update(l.id, l, c, pf, class)
 			}
